@@ -23,7 +23,8 @@ RULE = (
     "the answer, or (dtsum) a positive annual reach at >= 2 step sizes; distinct = distinct case hash"
 )
 ASSUMPTIONS = [
-    "inputs are what real callers pass: float arrays / float scalars, spending >= 0, unit cost > 0, saturation in (0,1e3), eligible >= 0, magnitudes <= 1e12 (unit cost >= 1e-6)",
+    "inputs are what real callers pass: float arrays / float scalars, spending >= 0, unit cost > 0, saturation in (0,1e3), eligible >= 0 (including tiny non-zero groups down to 1e-14), magnitudes <= 1e12 (unit cost >= 1e-6)",
+    "unit-cost units are drawn from every documented spelling (<currency>/person, <currency>/person (one-off), <currency>/person/year; currencies $, USD, AUD, euro sign); the oracle classifies by the documented rule: no '/year' => one-off",
     "integer arrays are out of scope (np.divide(..., out=ones_like(capacity)) needs floats; callers pass interpolated float arrays)",
     "every time series has data (assumption and/or time points); spending and unit cost are always given",
     "step independence of the annual reach is claimed for no / per-year capacity constraints only (an absolute constraint on a one-off program is per step by definition)",
@@ -36,6 +37,13 @@ INF = float("inf")
 YEARS = [2015.0, 2018.0, 2019.0, 2020.0, 2020.1, 2020.25, 2020.3, 2020.5, 2021.0, 2022.0, 2023.0, 2025.0]
 INT_YEARS = [2017.0, 2018.0, 2019.0, 2020.0, 2021.0, 2022.0, 2023.0]
 DTS_ANY = [1.0, 0.5, 0.25, 0.2, 0.1, 1.0 / 12, 1.0 / 52, 1.0 / 365, 0.05, 0.3, 0.7, 0.01]
+# every documented spelling of the unit-cost units: Programs.rst / Program.is_one_off ('$/person' one-off, '$/person/year' continuous),
+# new program books ('<currency>/person (one-off)'), migration.py and most shipped program books (plain '<currency>/person');
+# the currency is whatever ProgramSet.currency holds. Documented rule: no '/year' in the unit-cost units => one-off.
+UC_UNITS_ONE_OFF = ["$/person (one-off)", "$/person", "USD/person", "USD/person (one-off)", "\u20ac/person", "AUD/person (one-off)"]
+UC_UNITS_CONTINUOUS = ["$/person/year", "USD/person/year", "\u20ac/person/year"]
+# capacity constraint: 'people/year' or 'people' (the only spellings the program book offers / the docs name)
+CON_UNITS = {True: "people/year", False: "people"}
 DTS_DIV = [1.0, 0.5, 0.25, 0.2, 0.125, 0.1, 1.0 / 12, 0.05, 1.0 / 52, 0.01, 1.0 / 365]
 
 
@@ -49,6 +57,23 @@ def close(a, b):
     if not (math.isfinite(a) and math.isfinite(b)):
         return False
     return abs(a - b) <= tol(a, b)
+
+
+def uc_units_of(spec):
+    """unit-cost units of a program spec (older cases / replays only carry the one_off flag)"""
+    u = spec.get("uc_units")
+    if u is None:
+        u = UC_UNITS_ONE_OFF[0] if spec["one_off"] else UC_UNITS_CONTINUOUS[0]
+    return u
+
+
+def documented_one_off(units):
+    """Programs.rst / Program.is_one_off docstring: cost per person = one-off, cost per person per year = continuous"""
+    return "/year" not in units
+
+
+def con_units_of(con):
+    return con.get("units") or CON_UNITS[bool(con["per_year"])]
 
 
 # --------------------------------------------------------------------------- generators
@@ -186,7 +211,8 @@ def d_constraint(d, years=YEARS, force_per_year=False):
     s = d_series(d, v_rel if rel else v_people, years)
     if not present:
         return None
-    return {"per_year": True if force_per_year else per_year, "rel": rel, "s": s}
+    per_year = True if force_per_year else per_year
+    return {"per_year": per_year, "units": CON_UNITS[per_year], "rel": rel, "s": s}
 
 
 def d_optional_series(d, val):
@@ -201,9 +227,12 @@ def d_eligible(d, n):
     out = []
     ints = [d.u() for _ in range(4)]
     for k in ints[:n]:
-        s = k % 5
-        k //= 5
-        out.append(["abs", 0.0] if s == 0 else ["rel", v_rel(k)] if s <= 2 else ["abs", v_people(k)])
+        s = k % 6
+        k //= 6
+        if s == 5:  # tiny but non-empty target groups (models in normalised units): still "somebody eligible"
+            out.append(["abs", _logu(-14, -2, (k % 4096) / 4096.0)])
+        else:
+            out.append(["abs", 0.0] if s == 0 else ["rel", v_rel(k)] if s <= 2 else ["abs", v_people(k)])
     return out
 
 
@@ -244,7 +273,9 @@ def decode_direct(ints):
         up = ["add", _logu(-3, 9, m)]
     s, m = _split(d.u(), 2)
     down = [0.5, 1.0, 0.999999, 0.1, 1e-3][int(m * 5)] if s == 0 else 1e-3 + m * 0.999
-    return {"mode": "direct", "one_off": flags % 2 == 0, "dt": dt, "tvec": tvec, "spend": spend, "uc": uc, "con": con, "sat": sat, "elig": elig, "spend_up": up, "uc_down": down, "scalar_call": (flags // 2) % 3 == 2}
+    one_off = flags % 2 == 0
+    pool = UC_UNITS_ONE_OFF if one_off else UC_UNITS_CONTINUOUS
+    return {"mode": "direct", "one_off": one_off, "uc_units": pool[(flags // 6) % len(pool)], "dt": dt, "tvec": tvec, "spend": spend, "uc": uc, "con": con, "sat": sat, "elig": elig, "spend_up": up, "uc_down": down, "scalar_call": (flags // 2) % 3 == 2}
 
 
 N_PROG = 1 + 7 + 7 + 8 + 8 + 4 + 3 * 7
@@ -259,10 +290,13 @@ def decode_progset(nprogs):
         flags = d.u()
         progs = []
         for _ in range(nprogs):
-            one_off = d.u() % 2 == 0
+            k = d.u()
+            one_off = k % 2 == 0
+            pool = UC_UNITS_ONE_OFF if one_off else UC_UNITS_CONTINUOUS
             progs.append(
                 {
                     "one_off": one_off,
+                    "uc_units": pool[(k // 2) % len(pool)],
                     "spend": d_series(d, v_spend),
                     "uc": d_series(d, v_uc),
                     "con": d_constraint(d),
@@ -300,7 +334,8 @@ def decode_dtsum(ints):
     ow = [None, "spending", None, "capacity"][k % 4]
     via = ["progset", "program", "progset"][(k // 4) % 3]
     ow_s = d_series(d, lambda q: [0.0, 100.0][q // 8 % 2] if q % 8 == 0 else _logu(-1, 7, _split(q, 8)[1]), years=INT_YEARS)
-    return {"mode": "dtsum", "dts": sorted(idx), "year": year, "spend": spend, "uc": uc, "con": con, "ow": ow, "ow_s": ow_s, "via": via}
+    uc_units = UC_UNITS_ONE_OFF[(k // 12) % len(UC_UNITS_ONE_OFF)]
+    return {"mode": "dtsum", "uc_units": uc_units, "dts": sorted(idx), "year": year, "spend": spend, "uc": uc, "con": con, "ow": ow, "ow_s": ow_s, "via": via}
 
 
 def _ints(n):
@@ -334,6 +369,8 @@ def static_cases(tier):
     yield {"mode": "direct", "one_off": True, "dt": 0.25, "tvec": [2020.0, 2020.25], "spend": [1000.0, 1000.0], "uc": A(10.0), "con": None, "sat": None, "elig": [["abs", 100.0], ["abs", 10.0]], "spend_up": ["mul", 2.0], "uc_down": 0.5, "scalar_call": False}
     # treatment example: capacity 100, constraint 50, 25 eligible -> coverage 1
     yield {"mode": "direct", "one_off": False, "dt": 0.25, "tvec": [2020.0], "spend": [1000.0], "uc": A(10.0), "con": {"per_year": False, "rel": False, "s": A(50.0)}, "sat": None, "elig": [["abs", 25.0]], "spend_up": ["mul", 2.0], "uc_down": 0.5, "scalar_call": True}
+    # the same with the plain '$/person' spelling used by Programs.rst, migrated program sets and most shipped program books
+    yield {"mode": "dtsum", "uc_units": "$/person", "dts": list(range(len(DTS_DIV))), "year": 2020.0, "spend": A(1000.0), "uc": A(10.0), "con": None, "ow": None, "ow_s": A(1.0), "via": "progset"}
     yield {"mode": "dtsum", "dts": list(range(len(DTS_DIV))), "year": 2020.0, "spend": A(1000.0), "uc": A(10.0), "con": None, "ow": None, "ow_s": A(1.0), "via": "progset"}
 
 
@@ -387,7 +424,7 @@ def resolve_constraint(con, base_people, dt):
     if con is None or not con["rel"]:
         return con
     f = base_people / dt if con["per_year"] else base_people
-    return {"per_year": con["per_year"], "rel": False, "s": scaled(con["s"], f)}
+    return {"per_year": con["per_year"], "units": con_units_of(con), "rel": False, "s": scaled(con["s"], f)}
 
 
 # --------------------------------------------------------------------------- builders
@@ -424,18 +461,23 @@ def mk_ts(at, s, units):
     return at.TimeSeries(t=list(s["t"]) if s["t"] else None, vals=list(s["v"]) if s["t"] else None, units=units, assumption=s["a"])
 
 
-def mk_prog(at, name, one_off, uc, con, sat, spend=None):
-    p = at.Program(name, "Program " + name, target_pops=["adults"], target_comps=["sus"])
-    p.unit_cost = mk_ts(at, uc, "$/person (one-off)" if one_off else "$/person/year")
+def mk_prog(at, name, uc_units, uc, con, sat, spend=None):
+    currency = uc_units.split("/")[0]
+    p = at.Program(name, "Program " + name, target_pops=["adults"], target_comps=["sus"], currency=currency)
+    p.unit_cost = mk_ts(at, uc, uc_units)
     if con is not None:
-        p.capacity_constraint = mk_ts(at, con["s"], "people/year" if con["per_year"] else "people")
+        p.capacity_constraint = mk_ts(at, con["s"], con_units_of(con))
     if sat is not None:
         p.saturation = mk_ts(at, sat, "N.A.")
     if spend is not None:
-        p.spend_data = mk_ts(at, spend, "$/year")
-    if p.is_one_off != one_off:
-        raise HarnessError("program kind not as built")
+        p.spend_data = mk_ts(at, spend, currency + "/year")
     return p
+
+
+def classification_law(prog, uc_units, case):
+    got = call("is_one_off", lambda: prog.is_one_off)
+    if bool(got) != documented_one_off(uc_units):
+        raise Violation(ID, "one-off/classification-by-unit-cost-units", "unit cost units %r: is_one_off = %r, documented rule (no '/year' => one-off) gives %r; case %r" % (uc_units, got, documented_one_off(uc_units), case))
 
 
 def mk_progset(at, progs):
@@ -508,8 +550,10 @@ def dt_label(dt):
     return "dt:other"
 
 
-def prog_labels(labels, one_off, con, sat):
+def prog_labels(labels, one_off, con, sat, uc_units=None):
     labels.add("kind:one-off" if one_off else "kind:continuous")
+    if uc_units is not None:
+        labels.add("unit-cost-units:" + uc_units)
     labels.add("saturation:" + ("no" if sat is None else "yes"))
     labels.add("constraint:" + ("none" if con is None else "per-year" if con["per_year"] else "absolute"))
 
@@ -521,7 +565,7 @@ def eval_direct(at, case, spend, uc, con, scalar_call, elig=None):
     """capacity (and coverage if elig is given) from the code under test"""
     tvec = np.array(case["tvec"], dtype=float)
     n = len(tvec)
-    prog = mk_prog(at, "A", case["one_off"], uc, con, case["sat"])
+    prog = mk_prog(at, "A", uc_units_of(case), uc, con, case["sat"])
     if scalar_call:
         cap = [as_list("capacity", call("get_capacity", prog.get_capacity, tvec[i], float(spend[i]), case["dt"]), 1, case)[0] for i in range(n)]
     else:
@@ -536,7 +580,8 @@ def eval_direct(at, case, spend, uc, con, scalar_call, elig=None):
 
 
 def check_direct(at, case):
-    one_off, dt, tvec, spend = case["one_off"], case["dt"], case["tvec"], case["spend"]
+    uc_units = uc_units_of(case)
+    one_off, dt, tvec, spend = documented_one_off(uc_units), case["dt"], case["tvec"], case["spend"]
     n = len(tvec)
     uc = case["uc"]
     uc_t = [ref_prev(uc, t) for t in tvec]
@@ -548,7 +593,7 @@ def check_direct(at, case):
     cap_ref = [ref_capacity(one_off, spend[i], uc_t[i], lim_t[i], dt) for i in range(n)]
     elig = [(v if k == "abs" else v * cap_ref[i]) for i, (k, v) in enumerate(case["elig"])]
     labels = set(["mode:direct", "call:" + ("scalar" if case["scalar_call"] else "vector"), dt_label(dt), "unit-cost-series:" + series_label(uc)])
-    prog_labels(labels, one_off, con, case["sat"])
+    prog_labels(labels, one_off, con, case["sat"], uc_units)
 
     cap, cov, prog = eval_direct(at, case, spend, uc, con, case["scalar_call"], elig)
     # stepped interpolation of the program's own series
@@ -567,6 +612,7 @@ def check_direct(at, case):
             raise Violation(ID, "direct/capacity-above-constraint", "index %d capacity %r limit %r case %r" % (i, cap[i], lim_t[i], case))
         nontrivial |= point_laws("direct", case, i, one_off, cap[i], cov[i], elig[i], lim_t[i], sat_t[i], raw_t[i], labels)
 
+    classification_law(prog, uc_units, case)
     # more spending, everything else fixed
     kind, f = case["spend_up"]
     spend2 = [s * f if kind == "mul" else s + f for s in spend]
@@ -612,7 +658,7 @@ def check_progset(at, case):
     from_ps = bool(case.get("alloc_progset"))
     eff_alloc = []
     for name, p in zip(names, case["progs"]):
-        one_off = p["one_off"]
+        one_off = documented_one_off(uc_units_of(p))
         step = dt if one_off else 1.0
         if from_ps:
             # ProgramInstructions(alloc=<ProgramSet>): every program's spending is frozen at its book value in force in the start year
@@ -641,7 +687,7 @@ def check_progset(at, case):
             cov_t = [min(ref_overwrite(p["ow_cov"], t) * step, 1.0) for t in tvec]
         else:
             cov_t = cov_stage
-        progs.append(mk_prog(at, name, one_off, p["uc"], con, p["sat"], spend=p["spend"]))
+        progs.append(mk_prog(at, name, uc_units_of(p), p["uc"], con, p["sat"], spend=p["spend"]))
         if p["ow_alloc"] is not None:
             alloc_ow[name] = mk_overwrite(at, p["ow_alloc"])
         if p["ow_cap"] is not None:
@@ -649,7 +695,7 @@ def check_progset(at, case):
         if p["ow_cov"] is not None:
             cov_ow[name] = mk_overwrite(at, p["ow_cov"])
         refs.append(dict(spend=spend_t, cap=cap_t, cov=cov_t, elig=elig, lim=lim_t, sat=sat_t, raw=raw_t, cov_stage=cov_stage, cap_from_spend=cap_from_spend, cap_from_book=cap_from_book, book_spend=book_spend, con=con))
-        prog_labels(labels, one_off, con, p["sat"])
+        prog_labels(labels, one_off, con, p["sat"], uc_units_of(p))
         combo = "+".join(k for k, o in (("spending", p["ow_alloc"]), ("capacity", p["ow_cap"]), ("coverage", p["ow_cov"])) if o is not None) or "none"
         labels.add("overwrites:" + combo)
         for k, o in (("spending", p["ow_alloc"]), ("capacity", p["ow_cap"]), ("coverage", p["ow_cov"])):
@@ -678,9 +724,9 @@ def check_progset(at, case):
         a = as_list("alloc", alloc[nm], n, case)
         c = as_list("capacities", caps[nm], n, case)
         v = as_list("prop_coverage", cov[nm], n, case)
-        one_off = p["one_off"]
+        one_off = documented_one_off(uc_units_of(p))
         for i in range(n):
-            ctx = "program %s index %d t=%r dt=%r one_off=%r; case %r" % (nm, i, tvec[i], dt, one_off, case)
+            ctx = "program %s index %d t=%r dt=%r units=%r one_off=%r; case %r" % (nm, i, tvec[i], dt, uc_units_of(p), one_off, case)
             if not close(a[i], r["spend"][i]):
                 b = "precedence/spending-overwrite-vs-book" if p["ow_alloc"] is not None and close(a[i], r["book_spend"][i]) else "progset/reference-spending"
                 raise Violation(ID, b, "spending %r reference %r (book %r); %s" % (a[i], r["spend"][i], r["book_spend"][i], ctx))
@@ -714,6 +760,8 @@ def check_progset(at, case):
             if p["ow_cov"] is not None and not close(r["cov"][i], r["cov_stage"][i]):
                 labels.add("effective:coverage-overwrite")
                 nontrivial = True
+    for prog, p in zip(progs, case["progs"]):
+        classification_law(prog, uc_units_of(p), case)
     return {"nontrivial": nontrivial, "labels": sorted(labels)}
 
 
@@ -729,18 +777,21 @@ def check_dtsum(at, case):
     base_annual = spend / uc
     con = case["con"]
     if con is not None and con["rel"]:
-        con = {"per_year": True, "rel": False, "s": scaled(con["s"], base_annual)}
+        con = {"per_year": True, "units": con_units_of(con), "rel": False, "s": scaled(con["s"], base_annual)}
     expected = base_annual if con is None else min(base_annual, ref_prev(con["s"], Y))
     if ow == "capacity":
         expected = ref_prev(case["ow_s"], Y)
-    labels = set(["mode:dtsum", "kind:one-off", "via:" + case["via"], "constraint:" + ("none" if con is None else "per-year"), "overwrites:" + (ow or "none")])
+    uc_units = case.get("uc_units") or UC_UNITS_ONE_OFF[0]
+    if not documented_one_off(uc_units):
+        raise HarnessError("dtsum case with continuous unit-cost units %r" % (uc_units,))
+    labels = set(["mode:dtsum", "kind:one-off", "unit-cost-units:" + uc_units, "via:" + case["via"], "constraint:" + ("none" if con is None else "per-year"), "overwrites:" + (ow or "none")])
     via = "progset" if ow else case["via"]
     annual = {}
     for k in case["dts"]:
         dt = DTS_DIV[k]
         nsteps = int(round(1.0 / dt))
         tv = Y + np.arange(nsteps) * dt
-        prog = mk_prog(at, "A", True, case["uc"], con, None, spend=case["spend"])
+        prog = mk_prog(at, "A", uc_units, case["uc"], con, None, spend=case["spend"])
         if via == "program":
             sp = np.array([ref_prev(case["spend"], t) for t in tv], dtype=float)
             cap = call("get_capacity", prog.get_capacity, tv, sp, dt)
@@ -757,6 +808,7 @@ def check_dtsum(at, case):
         labels.add(dt_label(dt))
         if not close(annual[dt], expected):
             raise Violation(ID, "one-off/annual-reach-depends-on-step", "year %r dt %r: sum over %d steps %r, spend/unit cost (constraint, overwrite applied) %r; case %r" % (Y, dt, nsteps, annual[dt], expected, case))
+    classification_law(prog, uc_units, case)
     vals = list(annual.values())
     if not close(max(vals), min(vals)):
         raise Violation(ID, "one-off/annual-reach-depends-on-step", "annual totals %r case %r" % (annual, case))
